@@ -185,6 +185,58 @@ fn judge_stream(ctx: &mut Ctx, specs: &[&MsgSpec], case: &dyn Fn() -> Value) {
 /// file-level export as `adlt convert -o` does it: the file is read through LowMarkBufReader(512 KiB, low mark) and
 /// every message is written with to_write. A large message starts where `in_buf` bytes are left in the first
 /// window. Reference: the same bytes parsed from one slice.
+/// a normal-form file of ~600 KB: small messages, then one of std length `big_std_len` that starts where `in_buf` bytes of
+/// the first 512 KiB are left, then 3 small ones. Returns (bytes, number of messages)
+pub fn window_file(in_buf: usize, big_std_len: usize) -> (Vec<u8>, usize) {
+    const CAP: usize = 512 * 1024;
+    let o = CAP - in_buf; // offset of the large message
+    let mut src: Vec<u8> = Vec::with_capacity(CAP + 70_000);
+    let mut n = 0usize;
+    let filler = |total: usize, n: usize| -> Vec<u8> {
+        let mut m = shape(&Framing::Storage, 0, 0, 0, n as u8, n);
+        m.payload = payload_bytes(total - 20, n as u8);
+        m.to_bytes()
+    };
+    while src.len() + 2000 <= o {
+        src.extend_from_slice(&filler(1000, n));
+        n += 1;
+    }
+    let rest = o - src.len(); // 1000..2000
+    src.extend_from_slice(&filler(rest, n));
+    n += 1;
+    assert_eq!(src.len(), o);
+    let mut big = shape(&Framing::Storage, WTMS | UEH, 0, 0, 7, n);
+    big.payload = payload_bytes(big_std_len - big.hdr_size(), 0x5a);
+    src.extend_from_slice(&big.to_bytes());
+    n += 1;
+    for _ in 0..3 {
+        src.extend_from_slice(&filler(100, n));
+        n += 1;
+    }
+    (src, n)
+}
+
+/// `adlt convert -o` on such a file: the output must be byte-identical
+pub fn cli_window_export(dir: &str, in_buf: usize, big_std_len: usize) -> Result<(), String> {
+    let (src, n) = window_file(in_buf, big_std_len);
+    let (fin, fout) = (format!("{dir}/win-{in_buf}-{big_std_len}.dlt"), format!("{dir}/wout-{in_buf}-{big_std_len}.dlt"));
+    std::fs::write(&fin, &src).map_err(|e| e.to_string())?;
+    let _ = std::fs::remove_file(&fout);
+    let out = std::process::Command::new(crate::rem::adlt_bin()).arg("convert").arg("-o").arg(&fout).arg(&fin).output();
+    let written = std::fs::read(&fout).unwrap_or_default();
+    let _ = std::fs::remove_file(&fin);
+    let _ = std::fs::remove_file(&fout);
+    match out {
+        Err(e) => Err(format!("cannot run adlt: {e}")),
+        Ok(o) if !o.status.success() => Err(format!("adlt convert -o exited with {:?}", o.status.code())),
+        Ok(_) if written != src => {
+            let got = DltMessageIterator::new(0, &written[..]).count();
+            Err(format!("adlt convert -o wrote {} bytes / {got} messages for a normal-form input of {} bytes / {n} messages (message of std length {big_std_len} starting where {in_buf} bytes of the first 512 KiB are left)", written.len(), src.len()))
+        }
+        Ok(_) => Ok(()),
+    }
+}
+
 fn judge_file_window(ctx: &mut Ctx, low_mark: usize, in_buf: usize, big_std_len: usize, case: &dyn Fn() -> Value) {
     const CAP: usize = 512 * 1024;
     let o = CAP - in_buf; // offset of the large message
@@ -242,7 +294,7 @@ fn judge_file_window(ctx: &mut Ctx, low_mark: usize, in_buf: usize, big_std_len:
 }
 
 /// `adlt convert -o` on a normal-form file whose message number `pos` is large: the written file must be identical
-fn judge_cli_export(ctx: &mut Ctx, dir: &str, big_std_len: usize, pos: usize, case: &dyn Fn() -> Value) {
+fn judge_cli_export(ctx: &mut Ctx, dir: &str, big_std_len: usize, pos: usize, stale_output: bool, case: &dyn Fn() -> Value) {
     let mut src: Vec<u8> = vec![];
     let n = 6usize;
     for i in 0..n {
@@ -254,6 +306,14 @@ fn judge_cli_export(ctx: &mut Ctx, dir: &str, big_std_len: usize, pos: usize, ca
     let (fin, fout) = (format!("{dir}/in-{big_std_len}-{pos}.dlt"), format!("{dir}/out-{big_std_len}-{pos}.dlt"));
     std::fs::write(&fin, &src).expect("write input");
     let _ = std::fs::remove_file(&fout);
+    if stale_output {
+        // the output path already holds a longer file (an earlier, larger export)
+        let mut old = src.clone();
+        old.extend_from_slice(&src);
+        old.extend_from_slice(b"stale tail");
+        std::fs::write(&fout, &old).expect("write stale output");
+        ctx.landmark("cli_export_over_existing_output");
+    }
     let out = std::process::Command::new(crate::rem::adlt_bin()).arg("convert").arg("-o").arg(&fout).arg(&fin).output();
     ctx.landmark("cli_export");
     match out {
@@ -281,7 +341,7 @@ impl Prop for C02 {
             assumptions: vec!["storage micros < 10^6 (premise of the property)".into(), "CLI level: adlt convert -o on files with a near-maximum message at the start / inside / at the end (family cli_export); the option product is C14's".into()],
             budget_s: (90, 900),
             workers: 0,
-            required_landmarks: vec!["export_drops_header_field(WEID/WSID)", "serial_source", "max_size", "stream_with_embedded_marker", "file_window", "cli_export"],
+            required_landmarks: vec!["export_drops_header_field(WEID/WSID)", "serial_source", "max_size", "stream_with_embedded_marker", "file_window", "cli_export", "cli_export_over_existing_output", "cli_export_window"],
         }
     }
     fn prepare(&self, _t: Tier) -> Result<(), String> {
@@ -361,17 +421,34 @@ impl Prop for C02 {
         // the export through the binary: a large message as first / inner / last message of the file
         {
             let lens: &[usize] = if thorough { &[60_000, 65_000, 65_500, 65_519, 65_520, 65_521, 65_522, 65_530, 65_534, 65_535] } else { &[65_000, 65_520, 65_521, 65_535] };
-            ctx.begin_family("cli_export", &format!("adlt convert -o on 6-message normal-form files, message at position {{0, 2, 5}} with std length in {:?}: output byte-identical", lens));
+            ctx.begin_family("cli_export", &format!("adlt convert -o on 6-message normal-form files, message at position {{0, 2, 5}} with std length in {:?}, into a fresh and over an existing longer output file; and on 600 KB files with a maximum-size message at every buffered-byte count around the reader's low mark: output byte-identical", lens));
             let dir = crate::rem::scratch_dir();
             for &l in lens {
                 for pos in [0usize, 2, 5] {
-                    if ctx.mine() {
-                        let cj = || json!({"family": "cli_export", "big_std_len": l, "pos": pos});
-                        judge_cli_export(ctx, &dir, l, pos, &cj);
-                        ctx.transitions(1);
-                        ctx.eval(true);
-                        ctx.sample(cj);
+                    for stale in [false, true] {
+                        if ctx.mine() {
+                            let cj = || json!({"family": "cli_export", "big_std_len": l, "pos": pos, "stale_output": stale});
+                            judge_cli_export(ctx, &dir, l, pos, stale, &cj);
+                            ctx.transitions(1);
+                            ctx.eval(true);
+                            ctx.sample(cj);
+                        }
                     }
+                }
+            }
+            // the same through the binary for a file larger than the reader's buffer: a maximum-size message at every
+            // buffered-byte count around the low mark
+            let (wlo, whi) = if thorough { (65_400usize, 65_700usize) } else { (65_520, 65_570) };
+            for in_buf in wlo..=whi {
+                if ctx.mine() {
+                    let cj = || json!({"family": "cli_export", "window_in_buf": in_buf, "big_std_len": 65535});
+                    ctx.landmark("cli_export_window");
+                    if let Err(e) = cli_window_export(&dir, in_buf, 65535) {
+                        ctx.violation("cli_export", "window", &cj, e);
+                    }
+                    ctx.transitions(1);
+                    ctx.eval(true);
+                    ctx.sample(cj);
                 }
             }
             let _ = std::fs::remove_dir_all(&dir);
@@ -435,7 +512,13 @@ impl Prop for C02 {
             }
             let dir = crate::rem::scratch_dir();
             let cj = || case.clone();
-            judge_cli_export(ctx, &dir, case["big_std_len"].as_u64().unwrap() as usize, case["pos"].as_u64().unwrap() as usize, &cj);
+            if let Some(ib) = case["window_in_buf"].as_u64() {
+                if let Err(e) = cli_window_export(&dir, ib as usize, case["big_std_len"].as_u64().unwrap_or(65535) as usize) {
+                    ctx.violation("cli_export", "window", &cj, e);
+                }
+            } else {
+                judge_cli_export(ctx, &dir, case["big_std_len"].as_u64().unwrap() as usize, case["pos"].as_u64().unwrap() as usize, case["stale_output"].as_bool().unwrap_or(false), &cj);
+            }
             let _ = std::fs::remove_dir_all(&dir);
             ctx.eval(true);
         } else if case["family"] == "file_windows" {
